@@ -1,4 +1,192 @@
 import Ptn.C14.Model
-/-! Property theorems for C14. Only property theorems and non-vacuity examples live here. -/
+import Ptn.C14.Lemmas
+/-! Property theorems for C14 (bipartite vertex cover).  Only property theorems and non-vacuity
+examples live here; helper lemmas are in `Lemmas.lean` and the files it imports.
+
+Vocabulary (`Spec.lean`): `g.edge u v` (`v` listed in `adj_u[u]`), `g.WF` (what the constructor
+establishes), `IsMatching E M` (pairs are edges, no left / right vertex twice), `IsCover E cu cv`
+(every edge has its left end in `cu` or its right end in `cv`).  All statements hold for every
+graph: there is no bound on the number of vertices or edges. -/
 namespace Ptn.C14
+
+/-! ### (a) weak duality — independent of the algorithm -/
+
+/-- L5: a matching is never larger than a vertex cover. -/
+theorem weak_duality (E : Nat → Nat → Prop) (M : List (Nat × Nat)) (cu cv : List Nat)
+    (hM : IsMatching E M) (hC : IsCover E cu cv) : M.length ≤ cu.length + cv.length :=
+  weak_duality_aux E M cu cv hM hC
+
+/-- If a matching and a cover have the same size, the matching is maximum and the cover minimum
+    ("hence no smaller cover exists"). -/
+theorem tight_pair_optimal (E : Nat → Nat → Prop) (M : List (Nat × Nat)) (cu cv : List Nat)
+    (hM : IsMatching E M) (hC : IsCover E cu cv) (heq : cu.length + cv.length = M.length) :
+    (∀ M', IsMatching E M' → M'.length ≤ M.length) ∧
+    (∀ cu' cv', IsCover E cu' cv' → cu.length + cv.length ≤ cu'.length + cv'.length) := by
+  constructor
+  · intro M' hM'
+    have := weak_duality E M' cu cv hM' hC
+    omega
+  · intro cu' cv' hC'
+    have := weak_duality E M cu' cv' hM hC'
+    omega
+
+/-! ### graph construction -/
+
+/-- `BipartiteGraph(num_u, num_v, edges)` succeeds exactly on non-empty sides and in-range entries … -/
+theorem mkGraph_isSome_iff (nU nV : Nat) (es : List (Nat × Nat)) :
+    (mkGraph nU nV es).isSome ↔ 0 < nU ∧ 0 < nV ∧ ∀ p ∈ es, p.1 < nU ∧ p.2 < nV := by
+  unfold mkGraph
+  by_cases h0 : nU = 0 ∨ nV = 0
+  · rw [if_pos h0]
+    simp only [Option.isSome_none, Bool.false_eq_true, false_iff]
+    rintro ⟨h1, h2, _⟩
+    omega
+  · rw [if_neg h0]
+    constructor
+    · intro h
+      cases hr : addEdges (Graph.empty nU nV) es with
+      | none => rw [hr] at h; simp at h
+      | some g' =>
+        have := (addEdges_spec es _ g' (empty_wf0 nU nV) hr).2.2.2.1
+        exact ⟨by omega, by omega, this⟩
+    · rintro ⟨_, _, h⟩
+      exact addEdges_none es _ h
+
+/-- … and then yields a well-formed graph whose edges are exactly the given entries (a repeated
+    entry counts once: adjacency lists are duplicate-free). -/
+theorem mkGraph_spec (nU nV : Nat) (es : List (Nat × Nat)) (g : Graph)
+    (h : mkGraph nU nV es = some g) :
+    g.WF ∧ g.nU = nU ∧ g.nV = nV ∧ ∀ u v, g.edge u v ↔ (u, v) ∈ es := by
+  unfold mkGraph at h
+  split at h
+  · exact absurd h (by simp)
+  · rename_i h0
+    obtain ⟨w, e1, e2, _, hmem⟩ := addEdges_spec es _ g (empty_wf0 nU nV) h
+    have e1' : g.nU = nU := e1
+    have e2' : g.nV = nV := e2
+    refine ⟨w.toWF (by omega) (by omega), e1', e2', ?_⟩
+    intro u v
+    unfold Graph.edge
+    rw [hmem]
+    have : (Graph.empty nU nV).nbrU u = [] := by
+      have := (empty_wf0 nU nV).rng u
+      cases hl : (Graph.empty nU nV).nbrU u with
+      | nil => rfl
+      | cons b t =>
+        exfalso
+        simp [Graph.nbrU, Graph.empty, List.getD_eq_getElem?_getD, List.getElem?_replicate] at hl
+        split at hl <;> simp at hl
+    simp [this]
+
+/-! ### checker-style theorem -/
+
+/-- The decidable certificate evaluated by the driver on every model output is sound: it implies
+    that `M` is a maximum matching and `(cu, cv)` a minimum vertex cover of existing vertices. -/
+theorem certificate_sound (g : Graph) (hg : g.WF) (M : List (Nat × Nat)) (cu cv : List Nat)
+    (h : certificateOk g M cu cv = true) :
+    IsMatching g.edge M ∧ IsCover g.edge cu cv ∧
+    (∀ u ∈ cu, u < g.nU) ∧ (∀ v ∈ cv, v < g.nV) ∧ cu.length + cv.length = M.length ∧
+    (∀ M', IsMatching g.edge M' → M'.length ≤ M.length) ∧
+    (∀ cu' cv', IsCover g.edge cu' cv' → cu.length + cv.length ≤ cu'.length + cv'.length) := by
+  obtain ⟨h1, h2, h3, h4, h5, h6, h7⟩ := (certificateOk_iff g M cu cv).1 h
+  have hM : IsMatching g.edge M := ⟨h1, h2, h3⟩
+  have hC : IsCover g.edge cu cv := by
+    intro u v huv
+    exact h4 (u, v) ((mem_edges g u v).2 ⟨(hg.rng u v huv).1, huv⟩)
+  obtain ⟨o1, o2⟩ := tight_pair_optimal g.edge M cu cv hM hC h7
+  exact ⟨hM, hC, h5, h6, h7, o1, o2⟩
+
+/-! ### (b) the Koenig construction -/
+
+/-- For *every* valid matching `M` (maximum or not): if the cover part of `minimum_vertex_cover`
+    returns normally, the two lists are strictly ascending, contain only existing vertices, touch
+    every edge, and - because the code's own `assert` passed - have combined size `|M|`; hence `M`
+    is maximum and the cover minimum. -/
+theorem cover_ok_sound (g : Graph) (hg : g.WF) (M : List (Nat × Nat)) (hM : IsMatching g.edge M)
+    (cu cv : List Nat) (h : coverOf g M = .ok (cu, cv)) :
+    IsCover g.edge cu cv ∧ (∀ u ∈ cu, u < g.nU) ∧ (∀ v ∈ cv, v < g.nV) ∧
+    cu.Pairwise (· < ·) ∧ cv.Pairwise (· < ·) ∧ cu.length + cv.length = M.length ∧
+    (∀ M', IsMatching g.edge M' → M'.length ≤ M.length) ∧
+    (∀ cu' cv', IsCover g.edge cu' cv' → cu.length + cv.length ≤ cu'.length + cv'.length) := by
+  unfold coverOf at h
+  split at h
+  · exact absurd h (by simp)
+  · rename_i cu0 cv0 hloop
+    split at h
+    · rename_i hlen
+      simp only [Except.ok.injEq, Prod.mk.injEq] at h
+      obtain ⟨rfl, rfl⟩ := h
+      obtain ⟨_, _, s1, s2, _, hC, r1, r2⟩ := coverLoop_cover g M hg hM hloop
+      obtain ⟨o1, o2⟩ := tight_pair_optimal g.edge M _ _ hM hC hlen
+      exact ⟨hC, r1, r2, s1, s2, hlen, o1, o2⟩
+    · exact absurd h (by simp)
+
+/-- The exploration fuel `num_u + 1` is never exhausted (for any list `M` whatsoever). -/
+theorem explore_fuel_suffices (g : Graph) (hg : g.WF) (M : List (Nat × Nat)) :
+    coverOf g M ≠ .error .fuelExplore := by
+  unfold coverOf
+  obtain ⟨c', hc⟩ := coverLoop_total g M hg (freeLeft g M) (List.range g.nU, [])
+    (fun u hu => ((mem_freeLeft g M u).1 hu).1)
+  rw [hc]
+  obtain ⟨cu, cv⟩ := c'
+  simp only
+  split <;> simp
+
+/-- Koenig: if `M` is a valid matching and some set `R` of left vertices contains every free left
+    vertex and is closed in the sense that every edge leaving `R` ends in a *matched* right vertex
+    whose partner is again in `R` (this is exactly what a BFS that reports "no augmenting path"
+    leaves behind, `R` = the left vertices with finite distance: see `bfs_false_closed`), then the
+    cover part of `minimum_vertex_cover` returns normally - fuel suffices and the `assert` passes -
+    and the result touches every edge, contains only existing vertices and has combined size
+    `|M|`. -/
+theorem koenig_cover (g : Graph) (hg : g.WF) (M : List (Nat × Nat)) (hM : IsMatching g.edge M)
+    (R : Nat → Prop)
+    (hfree : ∀ u, u < g.nU → (∀ v, (u, v) ∉ M) → R u)
+    (hclosed : ∀ u v, R u → g.edge u v → ∃ w, (w, v) ∈ M ∧ R w) :
+    ∃ cu cv, coverOf g M = .ok (cu, cv) ∧
+      IsCover g.edge cu cv ∧ (∀ u ∈ cu, u < g.nU) ∧ (∀ v ∈ cv, v < g.nV) ∧
+      cu.length + cv.length = M.length := by
+  obtain ⟨c', hc⟩ := coverLoop_total g M hg (freeLeft g M) (List.range g.nU, [])
+    (fun u hu => ((mem_freeLeft g M u).1 hu).1)
+  obtain ⟨cu, cv⟩ := c'
+  have hsize : cu.length + cv.length = M.length := by
+    apply coverLoop_size g M hg hM hc R
+    · intro u hu
+      obtain ⟨h1, h2⟩ := (mem_freeLeft g M u).1 hu
+      exact hfree u h1 (fun v hv => h2 (u, v) hv rfl)
+    · intro u v hR huv
+      obtain ⟨w, hw, _⟩ := hclosed u v hR huv
+      exact ⟨w, hw⟩
+    · intro u v w hR huv hw
+      obtain ⟨w', hw', hRw'⟩ := hclosed u v hR huv
+      rw [hM.left_unique hw hw']; exact hRw'
+  obtain ⟨_, _, _, _, _, hC, r1, r2⟩ := coverLoop_cover g M hg hM hc
+  refine ⟨cu, cv, ?_, hC, r1, r2, hsize⟩
+  unfold coverOf
+  rw [hc]
+  simp [hsize]
+
+/-! ### Non-vacuity: concrete instances -/
+
+/-- the 3x3 "path" graph 0-0, 1-0, 1-1, 2-1, 2-2 with a duplicated entry and an isolated vertex -/
+def exGraph : Graph := (mkGraph 3 4 [(0, 0), (1, 0), (1, 1), (1, 0), (2, 1), (2, 2)]).getD (Graph.empty 1 1)
+
+example : mkGraph 3 4 [(0, 0), (1, 0), (1, 1), (1, 0), (2, 1), (2, 2)] = some exGraph := by decide
+example : exGraph.adjU = [[0], [0, 1], [1, 2]] ∧ exGraph.adjV = [[0, 1], [1, 2], [2], []] := by decide
+example : mkGraph 2 2 [(0, 2)] = none ∧ mkGraph 0 2 [] = none := by decide
+example : minimumVertexCover exGraph = .ok ([(0, 0), (1, 1), (2, 2)], [0, 1, 2], []) := by rfl
+example : certificateOk exGraph [(0, 0), (1, 1), (2, 2)] [0, 1, 2] [] = true := by decide
+-- a matching/cover pair for which hypotheses of `weak_duality` / `tight_pair_optimal` hold
+example : IsMatching exGraph.edge [(0, 0), (1, 1), (2, 2)] :=
+  ⟨by decide, by decide, by decide⟩
+example : IsCover exGraph.edge [1, 2] [0] := by
+  intro u v h
+  rw [(mkGraph_spec 3 4 [(0, 0), (1, 0), (1, 1), (1, 0), (2, 1), (2, 2)] exGraph (by decide)).2.2.2 u v] at h
+  simp only [List.mem_cons, Prod.mk.injEq, List.not_mem_nil, or_false] at h
+  rcases h with h | h | h | h | h | h <;> simp [h.1, h.2]
+-- the cover part on a maximum matching
+example : coverOf exGraph [(0, 0), (1, 1), (2, 2)] = .ok ([0, 1, 2], []) := by rfl
+-- a non-maximum matching makes the code's own assert fail (hence the closure hypothesis)
+example : coverOf exGraph [(1, 0), (2, 1)] = .error .assertion := by rfl
+
 end Ptn.C14
